@@ -180,22 +180,25 @@ Definition pick (targets : list str) (l : list Z) (m : Z) (warn : bool) : res de
               | Some t => Ok (Chosen i t warn) end
   end.
 
+(* max(scores, default=0): an empty list gives 0 (no ValueError) *)
+Definition zmax_default0 (l : list Z) : Z := match zmax l with None => 0 | Some m => m end.
+
+(* the loop body after max_score has been computed *)
+Definition decide_at (targets : list str) (levels scores : list Z) (m : Z) : res decision :=
+  if m =? 0 then Ok Unknown
+  else if (1 <? zcount m scores)%nat then
+    let cands := best_matches targets scores m in
+    let keys := map tb_key (combine scores levels) in
+    match zmax keys with
+    | None => Crash (s_ "ValueError")                       (* the second max() has no default *)
+    | Some m2 =>
+        if (1 <? zcount m2 keys)%nat then Ok (Ambiguous cands)
+        else pick targets keys m2 true
+    end
+  else pick targets scores m false.
+
 Definition decide (targets : list str) (levels scores : list Z) : res decision :=
-  match zmax scores with
-  | None => Crash (s_ "ValueError")
-  | Some m =>
-      if m =? 0 then Ok Unknown
-      else if (1 <? zcount m scores)%nat then
-        let cands := best_matches targets scores m in
-        let keys := map tb_key (combine scores levels) in
-        match zmax keys with
-        | None => Crash (s_ "ValueError")
-        | Some m2 =>
-            if (1 <? zcount m2 keys)%nat then Ok (Ambiguous cands)
-            else pick targets keys m2 true
-        end
-      else pick targets scores m false
-  end.
+  decide_at targets levels scores (zmax_default0 scores).
 
 Definition decide_for (home : option str) (targets : list str) (levels : list Z) (source : str)
   : res decision :=
